@@ -21,6 +21,7 @@ class Ob:
     twin: bool = True  # run the reachability twin
     smoke: int = 8  # concrete random smoke runs (harness sanity, not a verdict)
     functions: tuple = ()  # repo functions exercised (evidence)
+    stop_after_known: bool = False  # do not re-explore with the listed finding excluded (unbounded searches)
     kind: str = "crosshair"  # 'crosshair' (engine A) | 'smt' (engine B: own AST->z3 encoding)
 
     def __post_init__(self):
